@@ -6,6 +6,7 @@
  * file, you can obtain one at https://mozilla.org/MPL/2.0/.
  */
 
+#include <cstdint>
 #include <sstream>
 
 #include "timestamp.h"
@@ -28,7 +29,9 @@ void CDNS::Timestamp::add_time_offset(int64_t offset, uint64_t ticks_per_second)
 
     int64_t ticks = (m_secs * ticks_per_second) + m_ticks;
 
-    if (-1 * offset > ticks)
+    // Compare without negating or adding first, so that no offset (INT64_MIN included) causes signed overflow
+    if ((offset < 0 && (offset == INT64_MIN || ticks < -offset)) ||
+        (offset >= 0 && (ticks < 0 || ticks > INT64_MAX - offset)))
         throw std::runtime_error("Adding offset to Timestamp would create invalid Timestamp!");
 
     ticks += offset;
